@@ -474,6 +474,11 @@ func (p *proxyConn) writeResponse(res *http.Response) error {
 		if req.Method == http.MethodConnect && res.StatusCode/100 == 2 {
 			res.Close = false
 		}
+		// Likewise a successful protocol upgrade turns the connection into a tunnel,
+		// it must not be closed even if the request asked for it ("Connection: Upgrade, close").
+		if res.StatusCode == http.StatusSwitchingProtocols {
+			res.Close = false
+		}
 	}
 
 	if res.Close {
